@@ -702,9 +702,9 @@ func main() {
 		Preamble: "From Coq Require Import List ZArith Bool Uint63.\nFrom Verif Require Import model.Scrape corr.CorrC37.\nImport ListNotations.\nOpen Scope uint63_scope.\n",
 		Type:     "case",
 		Footer:   gallina.StdFooter,
-		PerShard: 20,
+		PerShard: 50,
 	}
-	n := f.Count(120, 3000)
+	n := f.Count(160, 2400)
 	maxSteps := 25
 	if f.Tier == "thorough" {
 		maxSteps = 50
